@@ -301,6 +301,14 @@ def main():
         if k is not None:
             keys.add(k)
     n_ob = max(1, len(res.theorems))
+    herr = [o for o in obss if isinstance(o, dict) and "harness_error" in o]
+    ok_pairs = [(c, o) for c, o in zip(cases, obss) if not (isinstance(o, dict) and "harness_error" in o)]
+
+    def safe(f, default):
+        try:
+            return f()
+        except Exception as e:  # noqa: BLE001 - evidence must be written whatever the implementation did
+            return {"unavailable": f"{type(e).__name__}: {e}"[:200]} if isinstance(default, dict) else default
     ev = {
         "property_id": pid, "tier": tier, "seed": args.seed, "level": "proof",
         "coverage": {
@@ -320,8 +328,11 @@ def main():
             "spec_failures_on_impl": len(spec),
             "known_findings_hit": sorted(known_hit),
             "corpus_cases": len(corpus),
-            "samples": [plugin.describe(c, o) for c, o in list(zip(cases, obss))[len(corpus):len(corpus) + 3]] or ["(no case evaluated)"],
-            "distribution": plugin.summarize(cases, obss) if hasattr(plugin, "summarize") and obss else {},
+            "samples": safe(lambda: [plugin.describe(c, o) for c, o in (ok_pairs[len(corpus):len(corpus) + 3] or ok_pairs[:3])], [])
+            or ["(no case evaluated)"],
+            "distribution": safe(lambda: plugin.summarize([c for c, _ in ok_pairs], [o for _, o in ok_pairs]), {})
+            if hasattr(plugin, "summarize") and ok_pairs else {},
+            "harness_errors": {"count": len(herr), "first": herr[0] if herr else None},
             "exhaustive": bool(getattr(plugin, "last_exhaustive", False)),
             "build_ok": res.ok, "failed": res.failed_target, "search": search_note,
             "coqchk": coqchk if coqchk is not None else "not run in the quick tier (thorough tier runs coqchk -o on the Properties module)",
